@@ -12,8 +12,26 @@ def base(kind):
     return kind.replace("Local", "")
 
 
+# field names with diverse first characters (identifiers are arbitrary; value strings default to the field name)
+NAMEPOOL = ["read", "rr", "_x", "Type", "e", "r2", "ok", "Zz", "a_b", "f"]
+
+
+def fname(i, j):
+    return "%s_%d_%d" % (NAMEPOOL[(3 * (i - 1) + (j - 1)) % len(NAMEPOOL)], i, j)
+
+
+def root(j, lab):
+    return j - 1 if lab["vals"][j - 1]["kind"] == "alias" else j
+
+
 def value_of(i, j, lab):
-    return "v-%d.%d é" % (i, j) if lab["vals"][j - 1]["renamed"] else "f_%d_%d" % (i, j)
+    r = root(j, lab)
+    return "v-%d.%d é" % (i, r) if lab["vals"][r - 1]["kind"] == "renamed" else fname(i, r)
+
+
+def decl_of(i, j, lab):
+    """text after the field name in the declaration: '' for a plain value, ': "value"' otherwise"""
+    return "" if lab["vals"][j - 1]["kind"] == "plain" else ': "%s"' % value_of(i, j, lab)
 
 
 def update(kind, amt):
@@ -38,7 +56,7 @@ def gen_case(ci, labels, perm, kind, auto):
         if lab["enum"]:
             lines.append("        pub label_enum E%d {" % i)
             for j, v in enumerate(lab["vals"], 1):
-                lines.append("            f_%d_%d%s," % (i, j, (': "%s"' % value_of(i, j, lab)) if v["renamed"] else ""))
+                lines.append("            %s%s," % (fname(i, j), decl_of(i, j, lab)))
             lines.append("        }")
     lines.append("        pub struct S: %s {" % kind)
     for i, lab in enumerate(labels, 1):
@@ -47,7 +65,7 @@ def gen_case(ci, labels, perm, kind, auto):
         else:
             lines.append('            "l%d" => {' % i)
             for j, v in enumerate(lab["vals"], 1):
-                lines.append("                f_%d_%d%s," % (i, j, (': "%s"' % value_of(i, j, lab)) if v["renamed"] else ""))
+                lines.append("                %s%s," % (fname(i, j), decl_of(i, j, lab)))
             lines.append("            },")
     lines.append("        }")
     lines.append("    }")
@@ -68,16 +86,16 @@ def gen_case(ci, labels, perm, kind, auto):
     any_enum = any(l["enum"] for l in labels)
     for L, p in enumerate(leaves):
         forms = []
-        acc1 = "s" + "".join(".f_%d_%d" % (i, j) for i, j in enumerate(p, 1))
+        acc1 = "s" + "".join(".%s" % fname(i, j) for i, j in enumerate(p, 1))
         forms.append((1, acc1))
         if any_enum:
-            acc2 = "s" + "".join((".get(E%d::f_%d_%d)" % (i, i, j)) if labels[i - 1]["enum"] else ".f_%d_%d" % (i, j) for i, j in enumerate(p, 1))
+            acc2 = "s" + "".join((".get(E%d::%s)" % (i, fname(i, j))) if labels[i - 1]["enum"] else ".%s" % fname(i, j) for i, j in enumerate(p, 1))
             forms.append((2, acc2))
         if not auto:
             acc3 = "s" + "".join('.try_get("%s").unwrap()' % value_of(i, j, labels[i - 1]) for i, j in enumerate(p, 1))
             forms.append((3, acc3))
             if n >= 2:   # mixed: field first, try_get afterwards
-                acc4 = "s.f_1_%d" % p[0] + "".join('.try_get("%s").unwrap()' % value_of(i, j, labels[i - 1]) for i, j in list(enumerate(p, 1))[1:])
+                acc4 = "s.%s" % fname(1, p[0]) + "".join('.try_get("%s").unwrap()' % value_of(i, j, labels[i - 1]) for i, j in list(enumerate(p, 1))[1:])
                 forms.append((4, acc4))
         total = 0
         for f, acc in forms:
@@ -86,15 +104,21 @@ def gen_case(ci, labels, perm, kind, auto):
             lines.append("        %s%s;" % (acc, update(kind, amt)))
             pushes.append("%s%s;" % (acc, update(kind, amt)))
         mult = 2 if auto else 1      # auto-flush handles are also driven from a second thread (each thread has its own local metrics)
-        expected.append({"labels": {"l%d" % i: value_of(i, j, labels[i - 1]) for i, j in enumerate(p, 1)}, "total": total * mult, "n": len(forms) * mult})
+        lab_map = {"l%d" % i: value_of(i, j, labels[i - 1]) for i, j in enumerate(p, 1)}
+        prev = next((e for e in expected if e["labels"] == lab_map), None)
+        if prev is not None:          # an alias path: the same child as an earlier leaf
+            prev["total"] += total * mult
+            prev["n"] += len(forms) * mult
+        else:
+            expected.append({"labels": lab_map, "total": total * mult, "n": len(forms) * mult})
     lines.append("        let mut none_ok = true;")
     if not auto:
         lines.append('        none_ok &= s.try_get("__undeclared__").is_none();')
-        if labels[0]["vals"][0]["renamed"]:
-            lines.append('        none_ok &= s.try_get("f_1_1").is_none();      // a renamed value is addressed by its value, not by its field name')
+        if labels[0]["vals"][0]["kind"] == "renamed":
+            lines.append('        none_ok &= s.try_get("%s").is_none();      // a renamed value is addressed by its value, not by its field name' % fname(1, 1))
         if n >= 2:
-            lines.append('        none_ok &= s.f_1_1.try_get("__undeclared__").is_none();')
-            lines.append('        none_ok &= s.f_1_1.try_get("%s").is_none();' % value_of(1, 1, labels[0]))
+            lines.append('        none_ok &= s.%s.try_get("__undeclared__").is_none();' % fname(1, 1))
+            lines.append('        none_ok &= s.%s.try_get("%s").is_none();' % (fname(1, 1), value_of(1, 1, labels[0])))
     lines.append("        #[allow(unused_mut)] let mut mid: Vec<serde_json::Value> = vec![];")
     if auto:
         # the same accessor paths from a second thread, flushed there: its updates must arrive through ITS thread-local metrics,
@@ -158,7 +182,7 @@ def run(ctx):
         x = results[c["id"]]
         rp = {"case": {"kind": c["kind"], "auto": c["auto"], "decl": c["decl"]}}
         desc = "%s%s, %d labels %s, vector label order %s" % (c["kind"], " (auto-flush)" if c["auto"] else "", len(c["decl"]["labels"]),
-                                                             [("enum" if l["enum"] else "inline", [("renamed" if v["renamed"] else "plain") for v in l["vals"]]) for l in c["decl"]["labels"]], c["decl"]["perm"])
+                                                             [("enum" if l["enum"] else "inline", [v["kind"] for v in l["vals"]]) for l in c["decl"]["labels"]], c["decl"]["perm"])
         if "panic" in x:
             ctx.violation("panic", "%s: %s" % (desc, x["panic"][:300]), rp)
             continue
